@@ -596,9 +596,13 @@ let run_linknet (line : string) : string option =
 (* ---- transport/control types (extend-c08b): ocaml/run_c08_transport.ml.in ---- *)
 (*INCLUDE run_c08_transport.ml.in*)
 
+(* ---- IpHeaders (extend-c08c): ocaml/run_c08_iph.ml.in ---- *)
+(*INCLUDE run_c08_iph.ml.in*)
+
 let run (line : string) : string =
   match run_linknet line with Some r -> r | None ->   (* extend-c08a hook *)
   match run_transport line with Some r -> r | None -> (* extend-c08b hook *)
+  match run_iph line with Some r -> r | None ->       (* extend-c08c hook *)
   match Conv.split_ws line with
   | "v" :: "tcp" :: args -> tcp_value args
   | ["b"; "tcp"; h] -> tcp_bytes (bytes_of_hex h)
